@@ -1183,6 +1183,24 @@ impl TryFrom<&Generator> for GenerateResult {
         {
             return Err(anyhow!("partitioned selections don't match"));
         }
+        // the cached run did not check names it was not given: a name that none of its
+        // builds mentions may be unknown, which only regenerating can report
+        if let (Selector::All, Selector::Some(names)) = (&res.builders, &generator.builders) {
+            if !names
+                .iter()
+                .all(|name| res.build_infos.iter().any(|b| &b.builder == name))
+            {
+                return Err(anyhow!("builders don't match"));
+            }
+        }
+        if let (Selector::All, Selector::Some(names)) = (&res.apps, &generator.apps) {
+            if !names
+                .iter()
+                .all(|name| res.build_infos.iter().any(|b| &b.binary == name))
+            {
+                return Err(anyhow!("apps don't match"));
+            }
+        }
         if let GenerateMode::Local(path) = &generator.mode {
             if let GenerateMode::Local(cached_path) = &res.mode {
                 if path != cached_path {
